@@ -21,7 +21,7 @@ RULE = ("nets with 1-4 two-winding and 0-2 three-winding transformers fed from o
 ASSUMPTIONS = ["runpp is an oracle for the end-to-end part (its convergence is not proved)",
                "pandas DataFrame.merge(inner, on=[id, step]) keeps the order of the left (table) rows; dict(zip()) keeps the last value per key "
                "(both tied by the exact correspondence run)",
-               "second tap changer (tap2_*) columns are not generated"]
+               "second tap changer (tap2_* columns, 35 % of the 2W transformers): only the rational cases Ratio with tap2_step_degree 0 and Ideal by degree"]
 TRUSTED = ["construction of the 'private characteristic' and 'explicit values' twin nets in harness/props/c31.py"]
 # The defect "lookup keyed by id only" (C31-lookup-keyed-by-id-only) was repaired in /repo (fix: key the lookup by (id, step));
 # every violation is therefore unclassified ("spec").  G31 (the guard of the old behaviour) is only kept as a histogram key:
@@ -64,7 +64,7 @@ def gen_desc(rng, small=False):
                    "shift": rng.choice([0.0, 0.0, 150.0, 30.0]),
                    "vk": rng.randint(32, 56) / 4, "vkr": rng.randint(2, 6) / 8,
                    "sn": rng.choice([25.0, 40.0]), "par_bus": (i > 0 and rng.random() < 0.25),
-                   "p": rng.randint(4, 40) / 8, "q": rng.randint(0, 12) / 8})
+                   "p": rng.randint(4, 40) / 8, "q": rng.randint(0, 12) / 8, "tap2": _gen_tap2(rng)})
     t3 = []
     for i in range(n3):
         dep = rng.random() < 0.75
@@ -76,6 +76,17 @@ def gen_desc(rng, small=False):
                    "p": [rng.randint(4, 24) / 8, rng.randint(2, 12) / 8]})
     return {"cva": rng.random() < 0.7, "table": table, "t2": t2, "t3": t3,
             "vm": rng.choice([1.0, 1.02])}
+
+
+def _gen_tap2(rng):
+    """second (ordinary) tap changer of a 2W transformer: tap2_* columns; rational cases only (Ratio with 0 degree, Ideal by degree)"""
+    if rng.random() > 0.35:
+        return None
+    if rng.random() < 0.7:
+        return {"type": "Ratio", "side": rng.choice(["hv", "lv"]), "pos": rng.randint(-2, 2), "neutral": 0,
+                "pct": rng.choice([1.0, 2.5, 0.625]), "deg": 0.0}
+    return {"type": "Ideal", "side": rng.choice(["hv", "lv"]), "pos": rng.randint(-2, 2), "neutral": 0, "pct": 0.0,
+            "deg": rng.choice([1.0, -0.5])}
 
 
 def _rand_row(rng, k, s):
@@ -111,13 +122,18 @@ def build(desc, table=None, t2=None, t3=None):
             mv = pp.create_bus(net, 20.0)
             pp.create_load(net, mv, p_mw=t["p"], q_mvar=t["q"])
         last_mv = mv
+        kw2 = {}
+        a2 = t.get("tap2")
+        if a2:
+            kw2 = dict(tap2_side=a2["side"], tap2_neutral=a2["neutral"], tap2_min=-2, tap2_max=2, tap2_pos=a2["pos"],
+                       tap2_step_percent=a2["pct"], tap2_step_degree=a2["deg"], tap2_changer_type=a2["type"])
         pp.create_transformer_from_parameters(
             net, hv, mv, sn_mva=t["sn"], vn_hv_kv=110.0, vn_lv_kv=20.0, vkr_percent=t["vkr"], vk_percent=t["vk"],
             pfe_kw=14.0, i0_percent=0.07, shift_degree=t["shift"], tap_side=t["side"], tap_neutral=t.get("neutral", 0),
             tap_min=-2, tap_max=2, tap_pos=t["pos"], tap_step_percent=t.get("step_percent", 0.0),
             tap_step_degree=t.get("step_degree", 0.0),
             tap_changer_type=("Tabular" if t["dep"] else "Ratio"), tap_dependency_table=bool(t["dep"]),
-            id_characteristic_table=t["id"])
+            id_characteristic_table=t["id"], **kw2)
     for t in t3:
         mv = pp.create_bus(net, 20.0)
         lv = pp.create_bus(net, 10.0)
@@ -179,8 +195,16 @@ def model_terms(desc):
             rows3.append(trow_term(t["dep"], t["id"], t["pos"] if on else None, side, t["star"], 110.0, vnl, sh))
     v2 = [vrow_term(t["dep"], t["id"], t["pos"], [t["vk"], t["vkr"]]) for t in desc["t2"]]
     v3 = [vrow_term(t["dep"], t["id"], t["pos"], [t["vk"][0], t["vkr"][0], t["vk"][1], t["vkr"][1], t["vk"][2], t["vkr"][2]]) for t in desc["t3"]]
-    return "OL [run_tap false %s %s; run_tap true %s %s; run_vk %s %s; run_vk %s %s]" % (
-        tab2, cq.lst(rows2), tab3, cq.lst(rows3), tab2, cq.lst(v2), tab3, cq.lst(v3))
+    taps2 = []
+    for t in desc["t2"]:
+        a2 = t.get("tap2")
+        if not a2:
+            taps2.append("None")
+        else:
+            taps2.append("(Some {| t2_side := %s; t2_ideal := %s; t2_diff := %s; t2_pct := %s; t2_deg := %s |})" % (
+                {"hv": "HV", "lv": "LV"}[a2["side"]], cq.b(a2["type"] == "Ideal"), cq.q(a2["pos"] - a2["neutral"]), cq.q(a2["pct"]), cq.q(a2["deg"])))
+    return "OL [run_tap_2 %s %s %s; run_tap true %s %s; run_vk %s %s; run_vk %s %s]" % (
+        tab2, cq.lst(rows2), cq.lst(taps2), tab3, cq.lst(rows3), tab2, cq.lst(v2), tab3, cq.lst(v3))
 
 
 # ------------------------------------------------------------------ impl observation
@@ -417,6 +441,8 @@ def _one(ctx, desc, terms, pend, sample=False):
     ctx.count("G31_%s" % G31(desc))
     ctx.count("n_dep_%d" % sum(1 for t in desc["t2"] + desc["t3"] if t["dep"]))
     ctx.count("shares_id_%s" % shares(desc))
+    ctx.count("tap2_on_dependent_trafo_%s" % any(t["dep"] and t.get("tap2") for t in desc["t2"]))
+    ctx.count("non_dependent_trafo_keeps_shared_id_%s" % any((not t["dep"]) and t["id"] is not None and any(u["dep"] and u["id"] == t["id"] for u in desc["t2"] + desc["t3"]) for t in desc["t2"] + desc["t3"]))
     if not conv:
         ctx.count("runpp_not_converged")
     oracle(ctx, desc)
